@@ -247,3 +247,70 @@ SIM_SCENARIO(scen_c18, "c18", "C18", 3000000, 20000) {
     }
     g_regions = nullptr; g_pools = nullptr;
 }
+
+// c18b — the OS refuses memory exactly while the table of back references has to grow.  Every slab block and every
+// large object owns one back reference; when the leaves are used up BackRefMain::requestNewSpace() asks for 64 KB of
+// raw memory, and if that is refused falls back to the ordinary backend path, which may run the cache clean-ups (and those
+// give back references back).  Caches are filled first; then objects that need one back reference each are allocated
+// until the table grows, with the refusal aimed at the n-th 64 KB mapping and a drawn number of raw requests after it.
+SIM_SCENARIO(scen_c18b, "c18b", "C18", 4000000, 30000) {
+    hx::Desc d;
+    ShadowHeap heap;
+    int nthreads = (int)sim::draw_range(1, 2, "threads");
+    static const size_t big[] = {70000, 300000, (size_t)3 << 20};
+    static const int lens[] = {0, 1, 2, 6, 100000};
+    size_t big_sz = sim::draw_of(big, "cached_big_block");
+    int cached_slabs = (int)sim::draw_range(0, 6, "cached_slabs"), cached_large = (int)sim::draw_range(0, 3, "cached_large");
+    int soft = (int)sim::draw(3, "soft_limit");                       // 0 none, 1 one byte, 2 1 MB
+    int nth = (int)sim::draw_range(1, 3, "refuse_nth_64k"), len = sim::draw_of(lens, "refuse_len");
+    int count = (int)sim::draw_range(20, 110, "objects");
+    int free_every = (int)sim::draw(5, "free_every");                 // 0: never; else every k-th object is released again later
+    d.add(hx::fmt("tbbmalloc back-reference table growth under refusal: threads=%d caches{big=%zu slabs=%d large=%d} soft-limit=%s refuse the %d. 64KB mapping and %d raw requests after it; %d objects/thread, free_every=%d",
+                  nthreads, big_sz, cached_slabs, cached_large, soft == 0 ? "none" : soft == 1 ? "1" : "1MB", nth, len, count, free_every));
+    std::vector<std::vector<size_t>> sizes(nthreads);
+    for (int t = 0; t < nthreads; ++t) for (int i = 0; i < count; ++i) sizes[t].push_back(sim::draw(3) ? 8000 : (size_t)sim::draw_range(8200, 30000, "large_size"));
+    d.publish();
+    std::vector<std::vector<void*>> mine(nthreads);
+    int nulls = 0;
+    auto alloc = [&](int t, size_t sz, const char* what) -> void* {
+        errno = 0; void* q = scalable_malloc(sz);
+        if (!q) { ++nulls; SIM_CHECK(errno == ENOMEM, "oracle:alloc-result", "scalable_malloc(%zu) returned null with errno %d", sz, errno); return nullptr; }
+        heap.on_alloc(q, sz, 0, false, what); (void)t; return q;
+    };
+    auto release = [&](void* q, const char* what) { if (!q) return; heap.before_free(q, what); scalable_free(q); };
+    auto worker = [&](int t) {
+        // caches: a released big block, released slabs of several size classes, released large objects
+        void* b = alloc(t, big_sz, "cache-fill big"); release(b, "cache-fill free");
+        std::vector<void*> tmp;
+        for (int i = 0; i < cached_slabs; ++i) tmp.push_back(alloc(t, (size_t)48 << i, "cache-fill slab"));
+        for (int i = 0; i < cached_large; ++i) tmp.push_back(alloc(t, 9000 + 5000 * (size_t)i, "cache-fill large"));
+        for (void* q : tmp) release(q, "cache-fill free");
+        if (t == 0) {
+            if (soft) scalable_allocation_mode(TBBMALLOC_SET_SOFT_HEAP_LIMIT, soft == 1 ? 1 : 1 << 20);
+            sim::g_cfg.oom_size = 64 * 1024; sim::g_cfg.oom_size_nth = nth; sim::g_cfg.oom_size_len = (uint64_t)len;
+        }
+        for (size_t i = 0; i < sizes[t].size(); ++i) {
+            sim::upoint();
+            void* q = alloc(t, sizes[t][i], "scalable_malloc (table growth phase)");
+            if (q) mine[t].push_back(q);
+            if (free_every && i % (size_t)free_every == (size_t)free_every - 1 && mine[t].size() > 2) {
+                size_t j = (i * 7) % mine[t].size(); release(mine[t][j], "scalable_free (table growth phase)"); mine[t].erase(mine[t].begin() + (long)j);
+            }
+            if (i % 16 == 15) heap.check_all("during the table growth phase");
+        }
+    };
+    std::vector<std::function<void()>> fns;
+    for (int t = 0; t < nthreads; ++t) fns.push_back([&, t] { worker(t); });
+    hx::run_fibers(fns);
+    heap.check_all("at quiescence");
+    sim::g_cfg.oom_size = 0; sim::g_cfg.oom_at = 0; sim::g_cfg.oom_until = 0;
+    if (soft) scalable_allocation_mode(TBBMALLOC_SET_SOFT_HEAP_LIMIT, 0);
+    for (size_t sz : {(size_t)24, (size_t)8000, (size_t)20000, (size_t)3000000}) {
+        void* q = scalable_malloc(sz);
+        SIM_CHECK(q != nullptr, "oracle:recovery", "scalable_malloc(%zu) still fails after memory became available again", sz);
+        heap.on_alloc(q, sz, 0, false, "recovery scalable_malloc"); heap.before_free(q, "recovery free"); scalable_free(q);
+    }
+    if (nulls) sim::probe("request-failed-cleanly");
+    for (auto& v : mine) for (void* q : v) release(q, "final free");
+    heap.check_all("at the end");
+}
